@@ -3,7 +3,7 @@
    (valid, with compressed messages, every inflater), Proofs/ReaderViolP.v (first violation). *)
 From Coq Require Import List NArith ZArith Bool.
 From WS Require Import Base.Words Gen.Consts Model.Mask Model.Frame Model.Proto Model.CloseCodec Model.RefDecoder Model.Reader
-  Model.Script Model.ScriptZ Proofs.FrameP Proofs.ReaderP Proofs.ReaderRefP Proofs.ReaderZP Proofs.ReaderCutP Proofs.ReaderViolP Proofs.ReaderSeqViolP.
+  Model.Script Model.ScriptZ Proofs.FrameP Proofs.ReaderP Proofs.ReaderRefP Proofs.ReaderZP Proofs.ReaderCutP Proofs.ReaderViolP Proofs.ReaderSeqViolP Gen.FrameCode Proofs.GenTieP.
 Import ListNotations.
 Open Scope N_scope.
 
@@ -154,3 +154,23 @@ Theorem C03_data_frame_inside_message : forall cfg inflate ms sizes t f0 fs n cs
   r_inq (snd r) = wire masked (h_key h) p ++ tail /\ r_closed (snd r) = false /\ r_close_sent (snd r) = true.
 Proof. exact reader_data_frame_inside_message. Qed.
 Print Assumptions C03_data_frame_inside_message.
+
+(* ---- tie to the source by translation (Gen/FrameCode.v is regenerated from frame.go / read.go on every run) ---- *)
+
+(* the model's header decoder reads as many bytes of extended length as the switch of readFrameHeader does, refuses
+   exactly the 64-bit lengths that are negative as an int64, and the reserved-bit clause of its violation list is
+   readRSV1Illegal *)
+Theorem C03_length_decoding_is_source : forall l7, l7 < 128 ->
+  dec_ext l7 = Z.to_nat (gen_read_ext (Z.of_N l7)).
+Proof. exact dec_ext_is_source. Qed.
+Print Assumptions C03_length_decoding_is_source.
+
+Theorem C03_negative_length_is_source : forall p, p < 18446744073709551616 ->
+  (9223372036854775808 <=? p) = gen_len_refused (as_int64 p).
+Proof. exact dec_neg_is_source. Qed.
+Print Assumptions C03_negative_length_is_source.
+
+Theorem C03_rsv1_is_source : forall cfg h,
+  h_rsv1 h = true -> gen_rsv1_illegal (flate_on cfg) (Z.of_N (h_opc h)) = true -> hdr_violation cfg h = true.
+Proof. exact rsv1_source_refused_is_violation. Qed.
+Print Assumptions C03_rsv1_is_source.
